@@ -1,168 +1,46 @@
-(** SortProofs.v — property C19 at heap level: [sort_list] turns a chain of the ids [l] into a chain
-    of [isort le l] and touches no other link; [sort_object] turns the canonical encoding of the
-    children list [l] into the canonical encoding of the sorted list, for every heap, every object
-    size, every key multiset, both variants, with fuel [sort_fuel (length l)]. *)
+(** SortProofs.v — property C19 at heap level: [sort_object] turns the canonical encoding of the
+    children list [l] of an object into the canonical encoding of the sorted list, for every heap,
+    every object size, every key multiset, both variants, with fuel [sort_fuel (length l)].
+    ([sort_list] itself: SortLoops.sort_list_spec.)  Proved once for an abstract comparison
+    (SortLoops.v), instantiated for members with string keys (result = stable insertion sort) and
+    for members whose key may be NULL (result = some permutation, still a healthy container). *)
 From CJ Require Import Base Dbl Tree Heap SortDefs SortSpec SortChain SortLoops.
 From stdpp Require Import gmap sorting.
 Local Open Scope Z_scope.
 
-Section SortList.
-  Variable h : heap.
-  Variable cs : bool.
-  Notation le := (hle h cs).
-  Notation ok := (node_ok h).
-
-  Lemma head_app_ne {A} (l1 l2 : list A) : l1 <> [] -> head (l1 ++ l2) = head l1.
-  Proof. destruct l1; [congruence|reflexivity]. Qed.
-
-  Lemma sort_list_spec : forall fuel l m,
-    (length l + 2 <= fuel)%nat -> chain m l -> NoDup l -> (forall x, x ∈ l -> ok x) ->
-    exists m', sort_list fuel (head l) cs (with_lnk h m) = Ret (head (isort le l), with_lnk h m') /\
-               chain m' (isort le l) /\
-               (forall z, z ∉ l -> m' !! z = m !! z).
-  Proof.
-    induction fuel as [|f IH]; intros l m Hf Hc Hnd Hok; [lia|].
-    destruct l as [|x r].
-    { exists m. split; [reflexivity|]. split; [exact I|reflexivity]. }
-    assert (ok x) as Hx by (apply Hok; left). pose proof (node_ok_live _ _ Hx) as Lx.
-    destruct (chain_head _ _ _ _ Hc) as [px Hmx].
-    cbn [sort_list head].
-    mstep (get_next_with h m x _ _ Lx Hmx).
-    destruct r as [|y r'].
-    { exists m. split; [reflexivity|]. split; [exact Hc|reflexivity]. }
-    cbn [head]. set (l := x :: y :: r') in *.
-    assert (forall z, z ∈ l -> z ∈ h_live h) as Hlive by (intros z Hz; apply node_ok_live, Hok, Hz).
-    (* the pre-check *)
-    rewrite (bind_eq _ _ _ _ _ (scan_sorted_spec h cs m f l Hc Hok ltac:(cbn [length] in *; lia))).
-    destruct (scan_pure_suffix h cs l) as [pre Hpre].
-    pose proof (scan_pure_nonempty h cs l ltac:(discriminate)) as Hsne.
-    pose proof (scan_pure_sorted h cs l) as Hsorted.
-    destruct (scan_pure h cs l) as [|z w] eqn:Esp; [congruence|]. cbn [head]. cbn beta iota.
-    assert (chain m (z :: w)) as Hcz by (rewrite Hpre in Hc; eapply seg_suffix; exact Hc).
-    assert (z ∈ l) as Hzl by (rewrite Hpre; apply elem_of_app; right; left).
-    destruct (chain_head _ _ _ _ Hcz) as [pz Hmz].
-    assert ((n' <~ get_next (Some z) ;; ret (match n' with None => true | Some _ => false end)) (with_lnk h m)
-            = Ret (match head w with None => true | Some _ => false end, with_lnk h m)) as Hin.
-    { mstep (get_next_with h m z _ _ (Hlive z Hzl) Hmz). reflexivity. }
-    mstep Hin. clear Hin.
-    destruct w as [|w0 w']; cbn [head]; cbn beta iota.
-    { (* already sorted: left alone *)
-      exists m. rewrite (isort_id le) by (apply Hsorted; cbn; lia).
-      split; [reflexivity|]. split; [exact Hc|reflexivity]. }
-    clear Hsorted Hcz Hmz Hzl Hpre Hsne Esp pre pz z w0 w'.
-    (* the middle *)
-    rewrite (bind_eq _ _ _ _ _ (find_middle_spec h m f l l Hc Hc Hlive Hlive ltac:(lia) ltac:(cbn [length] in *; lia))).
-    destruct (mid_drop (length l) l l ltac:(lia) ltac:(lia)) as (k & Hmid & Hk).
-    rewrite Hmid.
-    assert (2 <= length l)%nat as Hlen2 by (cbn; lia).
-    assert (1 <= k /\ k < length l)%nat as [Hk1 Hk2] by lia.
-    pose proof (take_drop k l) as Htd.
-    assert (length (take k l) = k) as Hlt by (rewrite take_length; lia).
-    assert (length (drop k l) = (length l - k)%nat) as Hld by (apply drop_length).
-    destruct (take k l) as [|t0 l00] eqn:Et using rev_ind; [cbn in Hlt; lia|]. clear IHl00.
-    rename t0 into t. rename l00 into l0.
-    destruct (drop k l) as [|s r2] eqn:Ed; [exfalso; change (0%nat = (length l - k)%nat) in Hld; lia|].
-    assert (l = l0 ++ t :: s :: r2) as El by (rewrite <- Htd, <- app_assoc; reflexivity).
-    assert (forall z, z ∈ l0 ++ [t] -> z ∈ l) as In1 by (intros z Hz; rewrite <- Htd; apply elem_of_app; left; exact Hz).
-    assert (forall z, z ∈ s :: r2 -> z ∈ l) as In2 by (intros z Hz; rewrite <- Htd; apply elem_of_app; right; exact Hz).
-    assert (NoDup (l0 ++ [t]) /\ (forall z, z ∈ l0 ++ [t] -> z ∉ s :: r2) /\ NoDup (s :: r2)) as (Hnd1 & Hdis & Hnd2)
-      by (apply NoDup_app; rewrite Htd; exact Hnd).
-    (* the cut *)
-    assert (t ∈ l) as Htl by (apply In1, elem_of_app; right; left).
-    assert (s ∈ l) as Hsl by (apply In2; left).
-    destruct (split_spec h m l0 t s r2 ltac:(rewrite <- El; exact Hc) ltac:(rewrite <- El; exact Hnd) (Hlive t Htl) (Hlive s Hsl))
-      as (m1 & Hrun1 & Hc1a & Hc1b & Hfr1).
-    mstep Hrun1.
-    (* first half *)
-    assert (Some x = head (l0 ++ [t])) as Hhd.
-    { assert (head l = head (l0 ++ [t])) as HH by (rewrite <- Htd; apply head_app_ne; destruct l0; discriminate). exact HH. }
-    rewrite Hhd.
-    destruct (IH (l0 ++ [t]) m1 ltac:(rewrite Hlt; cbn [length] in *; lia) Hc1a Hnd1 (fun z Hz => Hok z (In1 z Hz)))
-      as (m2 & Hrun2 & Hc2 & Hfr2).
-    mstep Hrun2.
-    (* second half *)
-    assert (chain m2 (s :: r2)) as Hc2b.
-    { eapply seg_frame; [|exact Hc1b]. intros z Hz. apply Hfr2. intros Hz'. exact (Hdis z Hz' Hz). }
-    change (Some s) with (head (s :: r2)).
-    destruct (IH (s :: r2) m2 ltac:(rewrite Hld; cbn [length] in *; lia) Hc2b Hnd2 (fun z Hz => Hok z (In2 z Hz)))
-      as (m3 & Hrun3 & Hc3 & Hfr3).
-    mstep Hrun3.
-    set (a := isort le (l0 ++ [t])) in *. set (b := isort le (s :: r2)) in *.
-    assert (forall z, z ∈ a <-> z ∈ l0 ++ [t]) as Ina by (intros z; apply isort_elem).
-    assert (forall z, z ∈ b <-> z ∈ s :: r2) as Inb by (intros z; apply isort_elem).
-    assert (chain m3 a) as Hc3a.
-    { eapply seg_frame; [|exact Hc2]. intros z Hz. apply Hfr3. intros Hz'. apply Ina in Hz. exact (Hdis z Hz Hz'). }
-    (* the merge *)
-    assert (NoDup ([] ++ a ++ b)) as Hndab.
-    { cbn [app]. apply NoDup_app. split; [apply isort_NoDup; exact Hnd1|]. split; [|apply isort_NoDup; exact Hnd2].
-      intros z Hz Hz'. apply Ina in Hz. apply Inb in Hz'. exact (Hdis z Hz Hz'). }
-    assert (forall z, z ∈ [] ++ a ++ b -> z ∈ l) as Inab.
-    { cbn [app]. intros z Hz. apply elem_of_app in Hz as [Hz|Hz]; [apply In1, Ina, Hz|apply In2, Inb, Hz]. }
-    assert (length a + length b = length l)%nat as Hlab.
-    { unfold a, b. rewrite !isort_length, Hlt, Hld. lia. }
-    destruct (merge_loop_spec h cs f a b [] m3 ltac:(rewrite Hlab; cbn [length] in *; lia) Hndab
-                (fun z Hz => Hok z (Inab z Hz)) Hc3a Hc3 I)
-      as (acc' & a' & b' & m4 & Hrun4 & Hor & Heq & Ha4 & Hb4 & Hacc4 & Hfr4 & Hne1 & Hne2).
-    cbn [head last] in Hrun4. mstep Hrun4.
-    assert (a <> []) as Hane by (intros E; apply isort_nil_inv in E; destruct l0; discriminate).
-    assert (b <> []) as Hbne by (intros E; apply isort_nil_inv in E; discriminate).
-    cbn [app] in Heq.
-    assert (acc' ++ a' ++ b' = isort le l) as Hres.
-    { rewrite Heq. unfold a, b. rewrite (merge_isort le (hle_total h cs) (hle_trans h cs)). rewrite Htd. reflexivity. }
-    assert (forall z, z ∈ acc' ++ a' ++ b' <-> z ∈ l) as Inres by (intros z; rewrite Hres; apply isort_elem).
-    destruct (merge_finish_spec h m4 acc' a' b' Hor (Hne1 (or_introl Hane)) (Hne2 (or_intror (conj Hane Hbne))) Ha4 Hb4 Hacc4
-                ltac:(rewrite Hres; apply isort_NoDup; exact Hnd) (fun z Hz => Hlive z (proj1 (Inres z) Hz)))
-      as (m5 & Hrun5 & Hc5 & Hfr5).
-    exists m5. rewrite Hrun5, Hres. split; [reflexivity|]. split; [rewrite <- Hres; exact Hc5|].
-    intros z Hz.
-    rewrite Hfr5 by (intros Hz'; apply Hz, Inres, Hz').
-    rewrite Hfr4 by (intros Hz'; apply Hz, Inab, Hz').
-    rewrite Hfr3 by (intros Hz'; apply Hz, In2, Hz').
-    rewrite Hfr2 by (intros Hz'; apply Hz, In1, Hz').
-    apply Hfr1; intros ->; apply Hz; assumption.
-  Qed.
-End SortList.
-
 (** * [sort_object] *)
 
-Definition nd_set_child (d : ndata) (c : ptr) : ndata :=
-  mkND (nd_type d) (nd_vstr d) (nd_vint d) (nd_vdbl d) (nd_key d) c.
-
-(** the hypotheses of the theorem: [l] are the children of object [o], canonically linked *)
-Record children_of (h : heap) (o : positive) (l : list positive) : Prop := mkCO {
-  co_live : o ∈ h_live h;
-  co_child : exists d, h_dat h !! o = Some d /\ nd_child d = head l;
-  co_nodup : NoDup l;
-  co_ok : forall x, x ∈ l -> node_ok h x;                       (* live nodes with readable keys *)
-  co_links : forall x, x ∈ l -> h_lnk h !! x = slinks l !! x    (* h_lnk agrees with [slinks l] on [l] *)
+(** [l] are the children of object [o], canonically linked *)
+Record children_shape (h : heap) (o : positive) (l : list positive) : Prop := mkCS {
+  cs_live : o ∈ h_live h;
+  cs_child : exists d, h_dat h !! o = Some d /\ nd_child d = head l;
+  cs_nodup : NoDup l;
+  cs_links : forall x, x ∈ l -> h_lnk h !! x = slinks l !! x    (* h_lnk agrees with [slinks l] on [l] *)
 }.
-
-Lemma get_child_eq h o d : o ∈ h_live h -> h_dat h !! o = Some d -> get_child (Some o) h = Ret (nd_child d, h).
-Proof.
-  intros Hl Hd. unfold get_child, ld_dat, bindM, chk, ret.
-  destruct (decide (o ∈ h_live h)) as [_|N]; [|contradiction]. rewrite Hd. reflexivity.
-Qed.
-
-Lemma set_child_eq h o d c : o ∈ h_live h -> h_dat h !! o = Some d ->
-  set_child (Some o) c h = Ret (tt, with_dat h (<[o := nd_set_child d c]> (h_dat h))).
-Proof.
-  intros Hl Hd. unfold set_child, ld_dat, st_dat, bindM, chk, ret.
-  destruct (decide (o ∈ h_live h)) as [_|N]; [|contradiction]. rewrite Hd.
-  destruct (decide (o ∈ h_live h)) as [_|N]; [|contradiction]. rewrite Hd. reflexivity.
-Qed.
-
-Lemma chain_set_head_prev m x r nx n p q :
-  seg m None (x :: r) nx -> m !! x = Some (n, p) -> x ∉ r -> seg (<[x := (n, q)]> m) None (x :: r) nx.
-Proof.
-  cbn [seg]. intros (n' & p' & Hx & _ & Hn & Hr) Hm Hnr. rewrite Hm in Hx. injection Hx as <- <-.
-  exists n, q. split; [apply lookup_insert|]. split; [intros ? ?; discriminate|]. split; [exact Hn|].
-  eapply seg_frame; [|exact Hr]. intros z Hz. apply lookup_insert_ne. intros ->. contradiction.
-Qed.
+(** ... and they are live nodes whose keys are readable C strings: the hypotheses of the theorems *)
+Record children_of (h : heap) (o : positive) (l : list positive) : Prop := mkCO {
+  co_shape : children_shape h o l;
+  co_ok : forall x, x ∈ l -> node_ok h x
+}.
+(** the same with keys that may be NULL *)
+Record children_of0 (h : heap) (o : positive) (l : list positive) : Prop := mkCO0 {
+  co0_shape : children_shape h o l;
+  co0_ok : forall x, x ∈ l -> node_ok0 h x
+}.
 
 Lemma node_ok_with_dat h o d c x :
   h_dat h !! o = Some d -> node_ok (with_dat h (<[o := nd_set_child d c]> (h_dat h))) x <-> node_ok h x.
 Proof.
   intros Hd. unfold node_ok, key_ptr. cbn [with_dat h_live h_dat h_str].
+  destruct (decide (x = o)) as [->|Hne].
+  - rewrite lookup_insert, Hd. cbn [nd_set_child nd_key]. split; intros (H1 & _ & H3); (split; [exact H1|split; [eauto|exact H3]]).
+  - rewrite lookup_insert_ne by congruence. reflexivity.
+Qed.
+
+Lemma node_ok0_with_dat h o d c x :
+  h_dat h !! o = Some d -> node_ok0 (with_dat h (<[o := nd_set_child d c]> (h_dat h))) x <-> node_ok0 h x.
+Proof.
+  intros Hd. unfold node_ok0, key_ptr, str_ok. cbn [with_dat h_live h_dat h_str].
   destruct (decide (x = o)) as [->|Hne].
   - rewrite lookup_insert, Hd. cbn [nd_set_child nd_key]. split; intros (H1 & _ & H3); (split; [exact H1|split; [eauto|exact H3]]).
   - rewrite lookup_insert_ne by congruence. reflexivity.
@@ -177,6 +55,110 @@ Proof.
   - rewrite lookup_insert_ne by congruence. reflexivity.
 Qed.
 
+Section SortObjectGen.
+  Variable h : heap.
+  Variable cs : bool.
+  Variable okn : positive -> Prop.
+  Variable cmpf : positive -> positive -> Z.
+  Hypothesis okn_live : forall x, okn x -> x ∈ h_live h.
+  Hypothesis okn_key : forall m x, okn x -> get_key (Some x) (with_lnk h m) = Ret (key_ptr h x, with_lnk h m).
+  Hypothesis okn_cmp : forall m x y, okn x -> okn y ->
+    compare_strings (key_ptr h x) (key_ptr h y) cs (with_lnk h m) = Ret (cmpf x y, with_lnk h m).
+
+  Theorem sort_object_gen o l fuel :
+    children_shape h o l -> (forall x, x ∈ l -> okn x) -> (sort_fuel (length l) <= fuel)%nat ->
+    let l' := msort cmpf fuel l in
+    exists h' d,
+      sort_object fuel (Some o) cs h = Ret (tt, h') /\
+      h_dat h !! o = Some d /\
+      h' = mkHeap (h_lnk h') (<[o := nd_set_child d (head l')]> (h_dat h)) (h_str h) (h_own h) (h_live h)
+                  (h_next h) (h_req h) (h_hooks h) (h_trace h) /\
+      (forall z, z ∉ l -> h_lnk h' !! z = h_lnk h !! z) /\
+      children_shape h' o l'.
+  Proof.
+    intros [Hlo (d & Hd & Hch) Hnd Hlk] Hok Hf l'.
+    assert (chain (h_lnk h) l) as Hc.
+    { apply chain_of_canonical. intros k x Hk. rewrite Hlk by (eapply elem_of_list_lookup_2; exact Hk).
+      apply slinks_lookup; assumption. }
+    unfold sort_fuel in Hf.
+    destruct (sort_list_spec h cs okn cmpf okn_live okn_key okn_cmp fuel l (h_lnk h) ltac:(lia) Hc Hnd Hok)
+      as (m1 & Hrun1 & Hc1 & Hfr1).
+    fold l' in Hrun1, Hc1. rewrite with_lnk_id in Hrun1.
+    assert (Permutation l' l) as Hperm by apply msort_perm.
+    assert (forall z, z ∈ l' <-> z ∈ l) as Inl by (intros z; rewrite Hperm; reflexivity).
+    assert (NoDup l') as Hnd' by (rewrite Hperm; exact Hnd).
+    assert (length l' = length l) as Hlen by (apply Permutation_length, Hperm).
+    set (d' := nd_set_child d (head l')).
+    set (hb := with_dat h (<[o := d']> (h_dat h))).
+    assert (h_dat hb !! o = Some d') as Hd' by (apply lookup_insert).
+    assert (forall m, with_dat (with_lnk h m) (<[o := d']> (h_dat h)) = with_lnk hb m) as Ehb by reflexivity.
+    exists (match l' with
+            | [] => with_lnk hb m1
+            | x0 :: _ => with_lnk hb (<[x0 := (match m1 !! x0 with Some np => fst np | None => None end, last l')]> m1)
+            end), d.
+    clearbody l'.
+    destruct l' as [|x0 r0] eqn:El'.
+    - (* no children *)
+      split; [|split; [exact Hd|split; [reflexivity|split; [exact Hfr1|]]]].
+      + unfold sort_object.
+        mstep (get_child_eq h o d Hlo Hd). rewrite Hch.
+        mstep Hrun1.
+        mstep (set_child_eq (with_lnk h m1) o d None Hlo Hd). rewrite Ehb.
+        mstep (get_child_eq (with_lnk hb m1) o d' Hlo Hd'). reflexivity.
+      + split; [exact Hlo|exists d'; split; [exact Hd'|reflexivity]|constructor|intros x Hx; inversion Hx].
+    - (* walk to the last child, restore head.prev *)
+      destruct (last_is_Some (x0 :: r0)) as [_ HL]. destruct (HL ltac:(discriminate)) as [t Ht]. clear HL.
+      apply last_Some in Ht as Ht'. destruct Ht' as [l0 El0].
+      assert (forall z, z ∈ x0 :: r0 -> z ∈ h_live hb) as Hlive.
+      { intros z Hz. apply okn_live, Hok, Inl, Hz. }
+      destruct (chain_head _ _ _ _ Hc1) as [p0 Hm0].
+      rewrite Hm0. cbn [fst]. rewrite Ht.
+      set (m2 := <[x0 := (head r0, Some t)]> m1).
+      assert (chain m2 (x0 :: r0)) as Hc2.
+      { apply (chain_set_head_prev m1 x0 r0 (Some None) (head r0) p0 (Some t) Hc1 Hm0).
+        apply NoDup_cons in Hnd' as [H _]. exact H. }
+      split; [|split; [exact Hd|split; [reflexivity|split]]].
+      + unfold sort_object.
+        mstep (get_child_eq h o d Hlo Hd). rewrite Hch.
+        mstep Hrun1.
+        mstep (set_child_eq (with_lnk h m1) o d (Some x0) Hlo Hd). rewrite Ehb.
+        mstep (get_child_eq (with_lnk hb m1) o d' Hlo Hd'). cbn [d' nd_set_child nd_child head].
+        mstep (get_child_eq (with_lnk hb m1) o d' Hlo Hd'). cbn [d' nd_set_child nd_child head].
+        assert (find_last fuel (Some x0) (with_lnk hb m1) = Ret (Some t, with_lnk hb m1)) as Hfl.
+        { change (Some x0) with (head (x0 :: r0)). rewrite El0.
+          apply find_last_spec.
+          - rewrite <- El0. exact Hc1.
+          - rewrite <- El0. exact Hlive.
+          - assert (length (x0 :: r0) = S (length l0)) as HH by (rewrite El0, app_length; cbn; lia). lia. }
+        mstep Hfl.
+        mstep (get_child_eq (with_lnk hb m1) o d' Hlo Hd'). cbn [d' nd_set_child nd_child head].
+        apply (set_prev_with hb m1 x0 _ _ (Some t) (Hlive x0 (elem_of_list_here _ _)) Hm0).
+      + cbn [h_lnk with_lnk]. intros z Hz. unfold m2. rewrite lookup_insert_ne; [apply Hfr1; exact Hz|].
+        intros ->. apply Hz, Inl. left.
+      + split.
+        * exact Hlo.
+        * exists d'. split; [exact Hd'|reflexivity].
+        * exact Hnd'.
+        * cbn [h_lnk with_lnk]. intros x Hx.
+          apply elem_of_list_lookup_1 in Hx as [k Hk].
+          rewrite (slinks_lookup _ _ _ Hnd' Hk).
+          apply (canonical_of_chain m2 (x0 :: r0) x0 Hc2 eq_refl); [|exact Hk].
+          exists (head r0). unfold m2. rewrite lookup_insert, Ht. reflexivity.
+  Qed.
+End SortObjectGen.
+
+(** ** members with string keys: the result is the stable insertion sort *)
+
+Lemma hle_is_le_of h cs : hle h cs = le_of (kcmp h cs).
+Proof. reflexivity. Qed.
+
+Lemma msort_kcmp h cs fuel l : (length l <= fuel)%nat -> msort (kcmp h cs) fuel l = isort (hle h cs) l.
+Proof.
+  intros Hf. rewrite hle_is_le_of. apply msort_isort; [| |exact Hf].
+  - intros a b. rewrite <- hle_is_le_of. apply hle_total.
+  - intros a b c. rewrite <- hle_is_le_of. apply hle_trans.
+Qed.
+
 Theorem sort_object_correct h o l cs fuel :
   children_of h o l -> (sort_fuel (length l) <= fuel)%nat ->
   let l' := isort (hle h cs) l in
@@ -188,74 +170,41 @@ Theorem sort_object_correct h o l cs fuel :
     (forall z, z ∉ l -> h_lnk h' !! z = h_lnk h !! z) /\
     children_of h' o l'.
 Proof.
-  intros [Hlo (d & Hd & Hch) Hnd Hok Hlk] Hf l'.
-  assert (chain (h_lnk h) l) as Hc.
-  { apply chain_of_canonical. intros k x Hk. rewrite Hlk by (eapply elem_of_list_lookup_2; exact Hk).
-    apply slinks_lookup; assumption. }
-  unfold sort_fuel in Hf.
-  destruct (sort_list_spec h cs fuel l (h_lnk h) ltac:(lia) Hc Hnd Hok) as (m1 & Hrun1 & Hc1 & Hfr1).
-  fold l' in Hrun1, Hc1. rewrite with_lnk_id in Hrun1.
-  assert (forall z, z ∈ l' <-> z ∈ l) as Inl by (intros z; apply isort_elem).
-  assert (NoDup l') as Hnd' by (apply isort_NoDup; exact Hnd).
-  assert (length l' = length l) as Hlen by (apply isort_length).
-  set (d' := nd_set_child d (head l')).
-  set (hb := with_dat h (<[o := d']> (h_dat h))).
-  assert (h_dat hb !! o = Some d') as Hd' by (apply lookup_insert).
-  assert (forall m, with_dat (with_lnk h m) (<[o := d']> (h_dat h)) = with_lnk hb m) as Ehb by reflexivity.
-  exists (match l' with
-          | [] => with_lnk hb m1
-          | x0 :: _ => with_lnk hb (<[x0 := (match m1 !! x0 with Some np => fst np | None => None end, last l')]> m1)
-          end), d.
-  assert (forall x, x ∈ l' -> node_ok hb x) as Hok'.
-  { intros x Hx. apply (node_ok_with_dat h o d (head l') x Hd). apply Hok, Inl, Hx. }
-  destruct l' as [|x0 r0] eqn:El'.
-  - (* no children *)
-    split; [|split; [exact Hd|split; [reflexivity|split; [exact Hfr1|]]]].
-    + unfold sort_object.
-      mstep (get_child_eq h o d Hlo Hd). rewrite Hch.
-      mstep Hrun1.
-      mstep (set_child_eq (with_lnk h m1) o d None Hlo Hd). rewrite Ehb.
-      mstep (get_child_eq (with_lnk hb m1) o d' Hlo Hd'). reflexivity.
-    + split; [exact Hlo|exists d'; split; [exact Hd'|reflexivity]|constructor|intros x Hx; inversion Hx|intros x Hx; inversion Hx].
-  - (* walk to the last child, restore head.prev *)
-    destruct (last_is_Some (x0 :: r0)) as [_ HL]. destruct (HL ltac:(discriminate)) as [t Ht]. clear HL.
-    apply last_Some in Ht as Ht'. destruct Ht' as [l0 El0].
-    assert (forall z, z ∈ x0 :: r0 -> z ∈ h_live hb) as Hlive.
-    { intros z Hz. apply node_ok_live with (h := h). apply Hok, Inl, Hz. }
-    destruct (chain_head _ _ _ _ Hc1) as [p0 Hm0].
-    rewrite Hm0. cbn [fst]. rewrite Ht.
-    set (m2 := <[x0 := (head r0, Some t)]> m1).
-    assert (chain m2 (x0 :: r0)) as Hc2.
-    { apply (chain_set_head_prev m1 x0 r0 (Some None) (head r0) p0 (Some t) Hc1 Hm0).
-      apply NoDup_cons in Hnd' as [H _]. exact H. }
-    split; [|split; [exact Hd|split; [reflexivity|split]]].
-    + unfold sort_object.
-      mstep (get_child_eq h o d Hlo Hd). rewrite Hch.
-      mstep Hrun1.
-      mstep (set_child_eq (with_lnk h m1) o d (Some x0) Hlo Hd). rewrite Ehb.
-      mstep (get_child_eq (with_lnk hb m1) o d' Hlo Hd'). cbn [d' nd_set_child nd_child head].
-      mstep (get_child_eq (with_lnk hb m1) o d' Hlo Hd'). cbn [d' nd_set_child nd_child head].
-      assert (find_last fuel (Some x0) (with_lnk hb m1) = Ret (Some t, with_lnk hb m1)) as Hfl.
-      { change (Some x0) with (head (x0 :: r0)). rewrite El0.
-        apply find_last_spec.
-        - rewrite <- El0. exact Hc1.
-        - rewrite <- El0. exact Hlive.
-        - assert (length (x0 :: r0) = S (length l0)) as HH by (rewrite El0, app_length; cbn; lia). lia. }
-      mstep Hfl.
-      mstep (get_child_eq (with_lnk hb m1) o d' Hlo Hd'). cbn [d' nd_set_child nd_child head].
-      apply (set_prev_with hb m1 x0 _ _ (Some t) (Hlive x0 (elem_of_list_here _ _)) Hm0).
-    + cbn [h_lnk with_lnk]. intros z Hz. unfold m2. rewrite lookup_insert_ne; [apply Hfr1; exact Hz|].
-      intros ->. apply Hz, Inl. left.
-    + split.
-      * exact Hlo.
-      * exists d'. split; [exact Hd'|reflexivity].
-      * exact Hnd'.
-      * intros x Hx. apply Hok'. exact Hx.
-      * cbn [h_lnk with_lnk]. intros x Hx.
-        apply elem_of_list_lookup_1 in Hx as [k Hk].
-        rewrite (slinks_lookup _ _ _ Hnd' Hk).
-        apply (canonical_of_chain m2 (x0 :: r0) x0 Hc2 eq_refl); [|exact Hk].
-        exists (head r0). unfold m2. rewrite lookup_insert, Ht. reflexivity.
+  intros [Hsh Hok] Hf l'.
+  destruct (sort_object_gen h cs (node_ok h) (kcmp h cs) (node_ok_live h)
+              (fun m x Hx => get_key_with h m x Hx) (fun m x y Hx Hy => compare_strings_with h m cs x y Hx Hy)
+              o l fuel Hsh Hok Hf) as (h' & d & Hrun & Hd & Eh & Hfr & Hsh').
+  unfold sort_fuel in Hf. cbn zeta in Eh, Hsh'. rewrite msort_kcmp in Eh, Hsh' by lia. fold l' in Eh, Hsh'.
+  exists h', d. split; [exact Hrun|]. split; [exact Hd|]. split; [exact Eh|]. split; [exact Hfr|].
+  split; [exact Hsh'|].
+  intros x Hx. rewrite Eh.
+  apply (node_ok_with_dat (with_lnk h (h_lnk h')) o d (head l') x Hd).
+  apply Hok. apply (isort_elem (hle h cs)). exact Hx.
+Qed.
+
+(** ** members whose key may be NULL: still no error outcome, a permutation, a healthy container *)
+
+Theorem sort_object_any_keys h o l cs fuel :
+  children_of0 h o l -> (sort_fuel (length l) <= fuel)%nat ->
+  exists h' l' d,
+    sort_object fuel (Some o) cs h = Ret (tt, h') /\
+    Permutation l' l /\
+    children_of0 h' o l' /\
+    (forall z, z ∉ l -> h_lnk h' !! z = h_lnk h !! z) /\
+    h_dat h !! o = Some d /\
+    h' = mkHeap (h_lnk h') (<[o := nd_set_child d (head l')]> (h_dat h)) (h_str h) (h_own h) (h_live h)
+                (h_next h) (h_req h) (h_hooks h) (h_trace h).
+Proof.
+  intros [Hsh Hok] Hf.
+  destruct (sort_object_gen h cs (node_ok0 h) (cmpz h cs) (node_ok0_live h)
+              (fun m x Hx => get_key_with0 h m x Hx) (fun m x y Hx Hy => compare_strings_with0 h m cs x y Hx Hy)
+              o l fuel Hsh Hok Hf) as (h' & d & Hrun & Hd & Eh & Hfr & Hsh').
+  exists h', (msort (cmpz h cs) fuel l), d.
+  split; [exact Hrun|]. split; [apply msort_perm|]. split; [|split; [exact Hfr|split; [exact Hd|exact Eh]]].
+  split; [exact Hsh'|].
+  intros x Hx. rewrite Eh.
+  apply (node_ok0_with_dat (with_lnk h (h_lnk h')) o d (head (msort (cmpz h cs) fuel l)) x Hd).
+  apply Hok. rewrite <- (msort_perm (cmpz h cs) fuel l). exact Hx.
 Qed.
 
 (** * Consequences *)
@@ -298,7 +247,7 @@ Proof.
   rewrite Hl2 in *.
   assert (h_lnk h2 = h_lnk h1) as Elnk.
   { apply map_eq. intros z. destruct (decide (z ∈ l1)) as [Hz|Hz].
-    - rewrite (co_links _ _ _ Hco2 z Hz), (co_links _ _ _ Hco1 z Hz). reflexivity.
+    - rewrite (cs_links _ _ _ (co_shape _ _ _ Hco2) z Hz), (cs_links _ _ _ (co_shape _ _ _ Hco1) z Hz). reflexivity.
     - apply Hfr2. exact Hz. }
   pose proof (f_equal h_dat Eh1) as Hdat. pose proof (f_equal h_str Eh1) as Hstr.
   pose proof (f_equal h_own Eh1) as Hown. pose proof (f_equal h_live Eh1) as Hliv.
@@ -309,4 +258,111 @@ Proof.
   rewrite Eh2, Elnk, Hdat, Hstr, Hown, Hliv, Hnxt, Hreq, Hhk, Htr.
   etransitivity; [|symmetry; exact Eh1].
   rewrite insert_insert. reflexivity.
+Qed.
+
+(** members whose keys are equal for the variant keep their relative order *)
+Lemma sorted_children_stable h cs l k :
+  let same := fun x => bytes_eqb (key_fold cs (keyof h x)) (key_fold cs k) in
+  List.filter same (isort (hle h cs) l) = List.filter same l.
+Proof.
+  intros same. apply isort_stable. intros a b Ha Hb. unfold same in *.
+  apply bytes_eqb_eq in Ha. apply bytes_eqb_eq in Hb.
+  unfold hle, key_le. rewrite key_cmp_fold, Ha, Hb, strcmp_refl. reflexivity.
+Qed.
+
+(** the main statement in one piece: no error outcome; the children afterwards are the stable
+    sort of the children before (a sorted permutation of the same nodes); the result is again the
+    canonical encoding; no link outside the chain, no other field of any node, no string, no
+    liveness / ownership / allocator state changes *)
+Theorem sort_object_sorted_perm h o l cs fuel :
+  children_of h o l -> (sort_fuel (length l) <= fuel)%nat ->
+  exists h' l' d,
+    sort_object fuel (Some o) cs h = Ret (tt, h') /\
+    l' = map fst (sort_spec cs (map (fun x => (x, keyof h x)) l)) /\
+    Permutation l' l /\
+    StronglySorted (fun x y => key_le cs (keyof h x) (keyof h y) = true) l' /\
+    (forall k, let same := fun x => bytes_eqb (key_fold cs (keyof h x)) (key_fold cs k) in
+               List.filter same l' = List.filter same l) /\
+    children_of h' o l' /\
+    (forall z, z ∉ l -> h_lnk h' !! z = h_lnk h !! z) /\
+    h_dat h !! o = Some d /\
+    h' = mkHeap (h_lnk h') (<[o := nd_set_child d (head l')]> (h_dat h)) (h_str h) (h_own h) (h_live h)
+                (h_next h) (h_req h) (h_hooks h) (h_trace h).
+Proof.
+  intros Hco Hf.
+  destruct (sort_object_correct h o l cs fuel Hco Hf) as (h' & d & Hrun & Hd & Eh & Hfr & Hco').
+  exists h', (isort (hle h cs) l), d.
+  split; [exact Hrun|]. split; [apply isort_hle_sort_spec|]. split; [apply sorted_children_perm|].
+  split; [apply sorted_children_sorted|]. split; [intros k; apply sorted_children_stable|].
+  split; [exact Hco'|]. split; [exact Hfr|]. split; [exact Hd|exact Eh].
+Qed.
+
+(** health: whatever heap the call returns encodes the sorted children list canonically again
+    (next/prev mirror, head.prev = tail, tail.next = NULL, child = head), so every statement about
+    well-formed containers applies to the sorted object *)
+Theorem sort_object_healthy h o l cs fuel h' :
+  children_of h o l -> (sort_fuel (length l) <= fuel)%nat ->
+  sort_object fuel (Some o) cs h = Ret (tt, h') ->
+  children_of h' o (isort (hle h cs) l) /\
+  (forall z, z ∉ l -> h_lnk h' !! z = h_lnk h !! z) /\
+  (forall z, z <> o -> h_dat h' !! z = h_dat h !! z) /\
+  h_str h' = h_str h /\ h_live h' = h_live h /\ h_own h' = h_own h /\ h_trace h' = h_trace h.
+Proof.
+  intros Hco Hf Hrun.
+  destruct (sort_object_correct h o l cs fuel Hco Hf) as (h1 & d & Hrun' & Hd & Eh & Hfr & Hco').
+  rewrite Hrun in Hrun'. injection Hrun' as <-.
+  split; [exact Hco'|]. split; [exact Hfr|].
+  pose proof (f_equal h_dat Eh) as Hdat. pose proof (f_equal h_str Eh) as Hstr.
+  pose proof (f_equal h_own Eh) as Hown. pose proof (f_equal h_live Eh) as Hliv.
+  pose proof (f_equal h_trace Eh) as Htr.
+  cbn [h_dat h_str h_own h_live h_trace] in Hdat, Hstr, Hown, Hliv, Htr.
+  split; [intros z Hz; rewrite Hdat; apply lookup_insert_ne; congruence|].
+  repeat split; assumption.
+Qed.
+
+(** a NULL object is left alone (the first guard of sort_object) *)
+Lemma sort_object_null fuel cs h : sort_object fuel None cs h = Ret (tt, h).
+Proof. reflexivity. Qed.
+
+(** * Non-vacuity: a concrete object {"c":0,"a":1,"b":2,"A":3} in a concrete heap *)
+Definition ex_mem (k : bytes) (i : Z) : node := Node 8 None i dzero (Some k) [].
+Definition ex_obj : node := Node 64 None 0 dzero None [ex_mem [99] 0; ex_mem [97] 1; ex_mem [98] 2; ex_mem [65] 3].
+Definition ex_heap : heap :=
+  match materialize ex_obj empty_heap with Ret (_, h) => h | Err _ => empty_heap end.
+Definition ex_l : list positive := [2; 4; 6; 8]%positive.   (* the member nodes "c" "a" "b" "A" *)
+
+Ltac by_compute := match goal with |- ?P => apply (bool_decide_unpack P); vm_compute; exact I end.
+
+Lemma ex_children : children_of ex_heap 1%positive ex_l.
+Proof.
+  split; [split|].
+  - by_compute.
+  - eexists. split; vm_compute; reflexivity.
+  - by_compute.
+  - intros x Hx. unfold ex_l in Hx.
+    repeat (apply elem_of_cons in Hx as [->|Hx]); try (inversion Hx; fail); vm_compute; reflexivity.
+  - intros x Hx. unfold ex_l in Hx.
+    repeat (apply elem_of_cons in Hx as [->|Hx]); try (inversion Hx; fail).
+    all: (split; [by_compute|]; split; [vm_compute; eexists; reflexivity|];
+          eexists _, _; split; [vm_compute; reflexivity|]; split; [by_compute|]; split; vm_compute; reflexivity).
+Qed.
+
+Lemma ex_sorted :
+  children_of ex_heap 1%positive ex_l /\
+  (exists h', sort_object (sort_fuel 4) (Some 1%positive) false ex_heap = Ret (tt, h') /\
+              children_of h' 1%positive [4; 8; 6; 2]%positive) /\
+  (exists h', sort_object (sort_fuel 4) (Some 1%positive) true ex_heap = Ret (tt, h') /\
+              children_of h' 1%positive [8; 4; 6; 2]%positive).
+Proof.
+  split; [exact ex_children|]. split.
+  - destruct (sort_object_correct ex_heap 1%positive ex_l false (sort_fuel 4) ex_children (le_n _))
+      as (h' & d & Hrun & _ & _ & _ & Hco).
+    exists h'. split; [exact Hrun|].
+    replace (isort (hle ex_heap false) ex_l) with [4; 8; 6; 2]%positive in Hco by (vm_compute; reflexivity).
+    exact Hco.
+  - destruct (sort_object_correct ex_heap 1%positive ex_l true (sort_fuel 4) ex_children (le_n _))
+      as (h' & d & Hrun & _ & _ & _ & Hco).
+    exists h'. split; [exact Hrun|].
+    replace (isort (hle ex_heap true) ex_l) with [8; 4; 6; 2]%positive in Hco by (vm_compute; reflexivity).
+    exact Hco.
 Qed.
